@@ -277,7 +277,9 @@ def make_canon(check_flags=False, check_contents=True, check_reopen=False):
                 why = dump
             elif check_contents and dump not in allowed:
                 why = "got " + dump
-            elif check_reopen and not check_flags and any(x.startswith("reopen(") for x in flags.split("+")):
+            elif (check_reopen and not check_flags and any(x.startswith("reopen(") for x in flags.split("+"))
+                  and "err:overflowframe" not in flags):
+                # (not when the probe has hit the recorded catalog defect in that process: C08-catalog-large-cells)
                 # the recovered database was closed cleanly and opened again: what it showed is gone (durability, not only C08)
                 why = "flags " + "+".join(x for x in flags.split("+") if x.startswith("reopen("))
             elif check_flags and flags != "ok":
